@@ -24,78 +24,98 @@ fn pat_at(p: &[u8], i: usize) -> u8 {
     }
 }
 
-/// Reference matcher: recursive transcription of Redis util.c stringmatchlen_impl (nocase = 0).
-/// One deliberate reading: `*` matches the empty string also when the text is empty (glob
-/// semantics; the C loop is simply not entered for an empty text).  `pi`/`ti` = current offsets.
-fn ref_glob(p: &[u8], pi: usize, t: &[u8], ti: usize) -> bool {
-    if pi >= p.len() {
-        return ti >= t.len();
+/// `case '['` of stringmatchlen_impl, transcribed: the class starts at p[i] == '['; `s` is the
+/// text byte.  Returns (class matches s, index of the pattern byte that follows the class).
+fn ref_class(p: &[u8], open: usize, s: u8) -> (bool, usize) {
+    let mut i = open + 1;
+    let not = pat_at(p, i) == b'^';
+    if not {
+        i += 1;
     }
-    let c = p[pi];
-    if c == b'*' {
-        // zero characters, or one more character of the text
-        if ref_glob(p, pi + 1, t, ti) {
-            return true;
-        }
-        return ti < t.len() && ref_glob(p, pi, t, ti + 1);
-    }
-    if ti >= t.len() {
-        return false;
-    }
-    let s = t[ti];
-    if c == b'?' {
-        return ref_glob(p, pi + 1, t, ti + 1);
-    }
-    if c == b'[' {
-        // class: transcription of the `case '['` loop, `i` = index of pattern[0], `left` = patternLen
-        let mut i = pi + 1;
-        let not = pat_at(p, i) == b'^';
-        if not {
+    let mut matched = false;
+    let mut done = false;
+    let mut steps = 0;
+    // at most one iteration per pattern byte
+    while steps <= p.len() && !done {
+        let left = if i <= p.len() { p.len() - i } else { 0 };
+        if pat_at(p, i) == b'\\' && left >= 2 {
             i += 1;
-        }
-        let mut matched = false;
-        let mut steps = 0;
-        loop {
-            let left = if i <= p.len() { p.len() - i } else { 0 };
-            if pat_at(p, i) == b'\\' && left >= 2 {
-                i += 1;
-                if p[i] == s {
-                    matched = true;
-                }
-            } else if pat_at(p, i) == b']' && left >= 1 {
-                break;
-            } else if left == 0 {
-                i -= 1;
-                break;
-            } else if left >= 3 && p[i + 1] == b'-' {
-                let mut lo = p[i];
-                let mut hi = p[i + 2];
-                if lo > hi {
-                    let x = lo;
-                    lo = hi;
-                    hi = x;
-                }
-                i += 2;
-                if s >= lo && s <= hi {
-                    matched = true;
-                }
-            } else if p[i] == s {
+            if p[i] == s {
+                matched = true;
+            }
+            i += 1;
+        } else if pat_at(p, i) == b']' && left >= 1 {
+            done = true;
+        } else if left == 0 {
+            i -= 1;
+            done = true;
+        } else if left >= 3 && p[i + 1] == b'-' {
+            let mut lo = p[i];
+            let mut hi = p[i + 2];
+            if lo > hi {
+                let x = lo;
+                lo = hi;
+                hi = x;
+            }
+            if s >= lo && s <= hi {
+                matched = true;
+            }
+            i += 3;
+        } else {
+            if p[i] == s {
                 matched = true;
             }
             i += 1;
         }
-        if not {
-            matched = !matched;
-        }
-        if !matched {
-            return false;
-        }
-        return ref_glob(p, i + 1, t, ti + 1);
+        steps += 1;
     }
-    if c == b'\\' && pi + 1 < p.len() {
-        return p[pi + 1] == s && ref_glob(p, pi + 2, t, ti + 1);
+    if not {
+        matched = !matched;
     }
-    c == s && ref_glob(p, pi + 1, t, ti + 1)
+    (matched, i + 1)
+}
+
+/// Reference matcher: the recurrence of Redis util.c stringmatchlen_impl (nocase = 0) evaluated
+/// bottom-up over a table (memoised recursion; a directly recursive transcription made CBMC
+/// unroll ~6^7 calls).  m[i][j] == pattern[i..] matches text[j..]:
+///   m[P][j]            = (j == T)
+///   p[i] == '*'        : m[i+1][j] || (j < T && m[i][j+1])
+///   j == T             : false
+///   p[i] == '?'        : m[i+1][j+1]
+///   p[i] == '['        : class(p, i) contains t[j] && m[after the class][j+1]
+///   p[i] == '\\', i+1<P  : p[i+1] == t[j] && m[i+2][j+1]
+///   otherwise          : p[i] == t[j] && m[i+1][j+1]
+/// One deliberate reading: `*` matches the empty string also when the text is empty (glob
+/// semantics, ferrous' own unit test; the C loop is simply not entered for an empty text).
+const MAXP: usize = 5;
+const MAXT: usize = 5;
+fn ref_glob<const P: usize, const T: usize>(p: &[u8; P], t: &[u8; T]) -> bool {
+    let mut m = [[false; MAXT + 1]; MAXP + 2];
+    let mut i = P + 1;
+    while i > 0 {
+        i -= 1;
+        let mut j = T + 1;
+        while j > 0 {
+            j -= 1;
+            m[i][j] = if i == P {
+                j == T
+            } else if p[i] == b'*' {
+                m[i + 1][j] || (j < T && m[i][j + 1])
+            } else if j == T {
+                false
+            } else if p[i] == b'?' {
+                m[i + 1][j + 1]
+            } else if p[i] == b'[' {
+                let (ok, next) = ref_class(p, i, t[j]);
+                ok && next <= P && m[next][j + 1]
+            } else if p[i] == b'\\' && i + 1 < P {
+                p[i + 1] == t[j] && m[i + 2][j + 1]
+            } else {
+                p[i] == t[j] && m[i + 1][j + 1]
+            };
+        }
+    }
+    m[0][0]
 }
 
 fn has_bracket(p: &[u8]) -> bool {
@@ -117,7 +137,7 @@ fn glob_case<const P: usize, const T: usize>(region: bool) -> u32 {
     if has_bracket(&p) != region {
         return 0;
     }
-    let want = ref_glob(&p, 0, &t, 0);
+    let want = ref_glob(&p, &t);
     let got = pattern_matches(&p, &t);
     assert!(got == want, "pattern_matches differs from the reference glob matcher (Redis stringmatchlen)");
     (got as u32) | ((!got) as u32) << 1 | ((got && P >= 2 && p[0] == b'\\') as u32) << 2 | ((got && P >= 1 && T >= 2 && p[0] == b'*') as u32) << 3
